@@ -84,7 +84,16 @@ def run(tier, seed, pid='C04'):
         [(5000, 'none'), (2500, 'client'), (1500, 'server'), (800, 'none')]
     # few messages, one of them far bigger than the longest handshake line allowed (16 KiB): joined with the final
     # handshake line in one read, its bytes are message data, not an over-long line
-    sizes = sizes + [(3, 'bigclient'), (3, 'bigserver'), (3, 'limit')]
+    sizes = sizes + [(3, 'bigclient'), (3, 'bigserver')]
+    # (the greatest message the protocol allows takes a few copies of 128 MiB to build, feed and keep: only where there
+    # is room for that)
+    try:
+        avail_kb = int([l for l in open('/proc/meminfo') if l.startswith('MemAvailable')][0].split()[1])
+    except Exception:
+        avail_kb = 0
+    if avail_kb >= 6 * 1024 * 1024:
+        sizes = sizes + [(3, 'limit')]
+    chk.notes['limit_instance'] = 'run' if avail_kb >= 6 * 1024 * 1024 else 'skipped: less than 6 GiB of memory available'
     for j, (nm, role) in enumerate(sizes):
         if role == 'limit':
             # a message of exactly the greatest length the protocol allows (2^27 bytes) between two small ones
